@@ -89,6 +89,19 @@ void gom(Rng& rng)
         fputs(" => ", stdout); \
         VH_RUN(EXPR, print_tv) \
     }
+#define RA(NAME, STMT) \
+    { \
+        printf("C08 asg " NAME " %s %s %s ", mode.c_str(), tn<L>().c_str(), tn<R>().c_str()); \
+        prv(l); \
+        putchar(' '); \
+        prv(r); \
+        fputs(" => ", stdout); \
+        VH_RUN(([&] { A c{l}; STMT; return c; }()), print_num) \
+    }
+            RA("div", c /= r)
+            RA("div", c /= b)
+            RA("add", c += r)
+            RA("mul", c *= b)
             RC("lt", a < b) RC("lt", a < r) RC("lt", l < b)
             RC("le", a <= r) RC("gt", l > b) RC("ge", a >= r)
             RC("eq", a == b) RC("eq", a == r) RC("eq", l == b)
